@@ -1,6 +1,7 @@
 import LeptosModel.Proofs.Async
 import LeptosModel.Proofs.AsyncSusp
 import LeptosModel.Proofs.AsyncRun
+import LeptosModel.Proofs.AsyncLock
 /-!
 # C10 — async derived values settle on the latest inputs
 
@@ -97,7 +98,9 @@ theorem dIter_hist (s : State) : SameHist s (dIter s).1 := by
   · exact ⟨rfl, rfl, rfl, id⟩
   · split
     · split
-      · exact (fetchState_hist s).trans (applyResult_hist _)
+      · split
+        · exact (fetchState_hist s).trans (applyResult_hist _)
+        · exact (fetchState_hist s).trans ⟨rfl, rfl, rfl, id⟩
       · exact fetchState_hist s
     · exact chk_hist s
 
@@ -119,7 +122,9 @@ theorem pollD_hist (s : State) : SameHist s (pollD s) := by
   · exact SameHist.trans ⟨rfl, rfl, rfl, id⟩ (dLoop_hist 3 _)
   · have h1 : SameHist s { s with dWoken := false } := ⟨rfl, rfl, rfl, id⟩
     split
-    · exact (h1.trans (applyResult_hist _)).trans (dLoop_hist 3 _)
+    · split
+      · exact (h1.trans (applyResult_hist _)).trans (dLoop_hist 3 _)
+      · exact ⟨rfl, rfl, rfl, id⟩
     · exact h1
 
 theorem effUpdate_hist (s : State) : SameHist s (effUpdate s).1 := by
@@ -163,7 +168,10 @@ theorem pollNth_hist (s : State) (j : Nat) : SameHist s (pollNth s j) := by
       split <;> exact ⟨rfl, rfl, rfl, id⟩
     · exact pollD_hist s
     · exact SameHist.trans ⟨rfl, rfl, rfl, id⟩ (eLoop_hist 4 _)
-    · exact ⟨rfl, rfl, rfl, id⟩
+    · show SameHist s (pollA s _)
+      unfold pollA wakeWriter
+      dsimp only
+      split <;> exact ⟨rfl, rfl, rfl, id⟩
   · exact SameHist.refl s
 
 theorem dMarkDirty_hist (s : State) : SameHist s (dMarkDirty s) := by
@@ -228,6 +236,12 @@ theorem step_hist (s : State) (e : Event) :
     (repeat' split) <;> exact ⟨rfl, rfl, rfl, .inl⟩
   | attachS => exact ⟨rfl, rfl, rfl, .inl⟩
   | bdrop => exact ⟨rfl, rfl, rfl, .inl⟩
+  | attachR => exact ⟨rfl, rfl, rfl, .inl⟩
+  | attachH => exact ⟨rfl, rfl, rfl, .inl⟩
+  | hold => exact ⟨rfl, rfl, rfl, .inl⟩
+  | release =>
+    simp only [step, release, wakeWriter]
+    split <;> exact ⟨rfl, rfl, rfl, .inl⟩
 
 theorem foldl_hist (s : State) (es : List Event) :
     (es.foldl step s).eff = s.eff ∧
@@ -280,9 +294,9 @@ theorem run_stolen (c : Cfg) (es : List Event) : (run c es).stolen = false :=
 theorem settled_waiting {s : State} (h : Inv s) (hs : settled s = true) :
     s.pc = .waiting ∧ s.loading = false ∧ s.dstate = .clean ∧ readyList s = [] ∧ inputsNow s = s.src := by
   simp only [settled, Bool.and_eq_true, decide_eq_true_eq, List.isEmpty_iff] at hs
-  obtain ⟨hst, hrl⟩ := hs
+  obtain ⟨⟨hst, hrl⟩, hg⟩ := hs
   obtain ⟨hd, he, ha⟩ := readyList_nil hrl
-  obtain ⟨⟨r1, r2, r7, m1, aw, s1, s2, t1⟩, ⟨r3, r4, r5, r6, fresh⟩, _, _⟩ := h
+  obtain ⟨⟨r1, r2, r7, m1, aw, s1, s2, t1⟩, ⟨r3, r4, r5, r6, fresh, r8⟩, _, _⟩ := h
   have hpc : s.pc = .waiting := by
     cases hp : s.pc
     · have := (r3 hp).1; simp [hd] at this
@@ -293,7 +307,9 @@ theorem settled_waiting {s : State} (h : Inv s) (hs : settled s = true) :
       · -- the result is there: either the tick has fired (then the task is woken) or the tick task is live
         cases htf : s.tickFired
         · exact absurd (t1 htf) (not_tickLive_of_idle hrl)
-        · have := h3 htf h1; simp [hd] at this
+        · rcases h3 htf h1 with hw | hw
+          · simp [hd] at hw
+          · have := (r8 hw).2.2.2 hg; simp [hd] at this
   obtain ⟨hl, hw⟩ := r5 hpc
   obtain ⟨_, hch⟩ := hw hd
   refine ⟨hpc, hl, ?_, hrl, ?_⟩
@@ -387,35 +403,153 @@ theorem C10_in_flight_reads_current (c : Cfg) (es : List Event) (hv : (run c es)
 
 /-! ## awaiters -/
 
-/-- At every settled point every task that awaited the derived has been resumed with a value
-(no awaiter is left parked in `wakers`, none is still waiting to be polled). -/
+/-- At every settled point (no guard on the value is held any more) no task that awaited the derived is left parked
+in `wakers` or waiting to be polled: each has been resumed with a value — or is a holder still sitting on its guard
+(`holding`; `settled` says no guard is held: see `C10_no_holder_when_settled_open`), or was `lost` (polled with
+loading off while the value lock was not readable: excluded by `C10_no_awaiter_lost` when no manual write
+happened). -/
 theorem C10_awaiters_resumed (c : Cfg) (es : List Event) (hs : settled (run c es) = true) :
-    ∀ a ∈ (run c es).aws, a.done = true ∧ a.parked = false ∧
-      (a.kind ≠ .tick → a.aborted = false → a.result ≠ none) := by
+    ∀ a ∈ (run c es).aws, a.parked = false ∧ (a.done = true ∨ a.holding = true ∨ a.lost = true) ∧
+      (a.done = true → a.kind ≠ .tick → a.aborted = false → a.result ≠ none) := by
   have h := Inv.run c es
   obtain ⟨_, hl, _, hrl, _⟩ := settled_waiting h hs
   obtain ⟨_, _, hw⟩ := readyList_nil hrl
   intro a ha
-  obtain ⟨h1, h2, h3⟩ := h.dc.aw a ha
+  obtain ⟨h1, h2, h3, _, _, _⟩ := h.dc.aw a ha
   have hp : a.parked = false := by
     cases hp : a.parked
     · rfl
     · have := h2 hp; simp [hl] at this
-  have hd : a.done = true := by
-    cases hd : a.done
-    · rcases h1 hd with hw' | hp'
-      · have := hw a ha hw'; simp [hd] at this
-      · simp [hp] at hp'
-    · rfl
-  exact ⟨hd, hp, h3 hd⟩
+  refine ⟨hp, ?_, h3⟩
+  cases hd : a.done
+  · rcases h1 hd with hw' | hp' | hh | hlost
+    · have := hw a ha hw'; simp [hd] at this
+    · simp [hp] at hp'
+    · exact .inr (.inl hh)
+    · exact .inr (.inr hlost)
+  · exact .inl rfl
 
-theorem awsResumed_of_settled (c : Cfg) (es : List Event) (hs : settled (run c es) = true) :
+theorem awsResumed_of_settled (c : Cfg) (es : List Event) (hs : settled (run c es) = true)
+    (hq : ∀ a ∈ (run c es).aws, a.holding = false ∧ a.lost = false) :
     awsResumed (run c es) = true := by
   unfold awsResumed
   rw [List.all_eq_true]
   intro a ha
-  obtain ⟨h1, _, h3⟩ := C10_awaiters_resumed c es hs a ha
+  obtain ⟨_, h1, h3⟩ := C10_awaiters_resumed c es hs a ha
+  obtain ⟨q1, q2⟩ := hq a ha
+  have hd : a.done = true := by
+    rcases h1 with h | h | h
+    · exact h
+    · rw [q1] at h; exact absurd h (by decide)
+    · rw [q2] at h; exact absurd h (by decide)
+  have h3' := h3 hd
   cases hk : a.kind <;> cases hr : a.result <;> simp_all
+
+/-! ### readers that hold a guard on the value (`async_lock::RwLock`) across awaits -/
+
+/-- Whatever guards are held, by whom and for how long — in every reachable state every task that waits for the
+derived and has not finished is accounted for: it is woken (the executor will poll it), or parked in `wakers`
+(`notify_subs` will wake it; only while loading), or a holder sitting on its guard until `release` (woken the moment
+its release is sent), or `lost` — the `(false, Poll::Pending)` arm of the value futures: polled with loading off while
+the lock was not readable, `Pending` with its waker registered nowhere. -/
+theorem C10_awaiter_parked_or_woken (c : Cfg) (es : List Event) :
+    ∀ a ∈ (run c es).aws, a.done = false →
+      a.woken = true ∨ (a.parked = true ∧ (run c es).loading = true) ∨ a.holding = true ∨ a.lost = true := by
+  intro a ha hd
+  obtain ⟨h1, h2, _⟩ := (Inv.run c es).dc.aw a ha
+  rcases h1 hd with h | h | h | h
+  · exact .inl h
+  · exact .inr (.inl ⟨h, h2 h⟩)
+  · exact .inr (.inr (.inl h))
+  · exact .inr (.inr (.inr h))
+
+/-- a holder whose release has been sent is woken: it will drop its guard -/
+theorem C10_holder_woken_on_release (c : Cfg) (es : List Event) :
+    ∀ a ∈ (run c es).aws, a.holding = true → a.rel = true → a.woken = true := by
+  intro a ha
+  exact ((Inv.run c es).dc.aw a ha).2.2.2.1
+
+/-- The derived's task waits for the write lock only with the result of its fetch in hand (the fetch has returned,
+the loading flag is still on until the value is stored), and it is not forgotten there: once the last read guard has
+gone it is woken — the finished reload is stored, `notify_subs` runs and every parked awaiter is resumed. -/
+theorem C10_writer_woken_when_guards_gone (c : Cfg) (es : List Event) (h : (run c es).lockReg = true) :
+    (run c es).pc = .fetching ∧ (run c es).curStatus = .ready ∧
+    ((run c es).guards = 0 → (run c es).dWoken = true) := by
+  obtain ⟨h1, h2, _, h4⟩ := (Inv.run c es).dr.r8 h
+  exact ⟨h1, h2, h4⟩
+
+/-- As long as no manual write happens the lock is unreadable only while loading is on (the only writer that ever
+waits for it is the derived's own task, which stores the value before it turns loading off), so the
+`(false, Poll::Pending)` arm of the value futures is never taken: NO AWAITER IS EVER LOST, whatever guards are held,
+by whom and for how long, and in whatever order everything is polled.  (With a manual write during a fetch loading
+is off while the task later waits for the lock; the arm is reachable then: `C10_awaiter_lost_after_manual_write_witness`.) -/
+theorem C10_no_awaiter_lost (c : Cfg) (es : List Event) (hes : ∀ e ∈ es, ∀ v, e ≠ .manualSet v) :
+    ∀ a ∈ (run c es).aws, a.lost = false :=
+  (LOK.run c es hes).n
+
+/-- ... so every task that waits for the derived and has not finished is woken, parked in `wakers` while loading, or
+a holder sitting on its guard until it is released -/
+theorem C10_awaiter_parked_or_woken_strict (c : Cfg) (es : List Event) (hes : ∀ e ∈ es, ∀ v, e ≠ .manualSet v) :
+    ∀ a ∈ (run c es).aws, a.done = false →
+      a.woken = true ∨ (a.parked = true ∧ (run c es).loading = true) ∨ a.holding = true := by
+  intro a ha hd
+  rcases C10_awaiter_parked_or_woken c es a ha hd with h | h | h | h
+  · exact .inl h
+  · exact .inr (.inl h)
+  · exact .inr (.inr h)
+  · rw [C10_no_awaiter_lost c es hes a ha] at h; exact absurd h (by decide)
+
+/-- the arm is not dead code: a manual write during a fetch turns loading off; a holder then takes its guard; the
+fetch completes and the task queues for the write lock with loading OFF; an awaiter polled now is lost (the model of
+the code as it is; the drivers keep manual writes and guards apart) -/
+theorem C10_awaiter_lost_after_manual_write_witness :
+    let es : List Event := [.poll 0, .manualSet 5, .attachH, .poll 0, .complete 0, .poll 0, .attach, .poll 0]
+    (run {} es).lockReg = true ∧ (run {} es).loading = false ∧
+    (run {} es).aws.any (fun a => a.lost) = true := by decide
+
+/-- OPEN (not proved; stated, not claimed): `guards` counts the harness's own guards plus the holders that have
+theirs, so at a settled point (`guards = 0`) no holder is still holding. -/
+def C10_no_holder_when_settled_open : Prop :=
+  ∀ (c : Cfg) (es : List Event), settled (run c es) = true → ∀ a ∈ (run c es).aws, a.holding = false
+
+/-- the seeded scenario (round-4 seed 2), kernel-evaluated: a holder keeps the first value's guard; the source
+changes, the reload completes and waits for the lock; a by-value awaiter, a `by_ref()` awaiter and a `ready()`
+awaiter arrive and are polled in that window (parked, the lock is not readable); the guard is released: the value is
+stored, all four are resumed with the new value, nothing is lost -/
+theorem C10_guard_held_witness :
+    let es : List Event := [.poll 0, .complete 0, .poll 0, .attachH, .poll 0, .set 0 2, .poll 0, .complete 1, .poll 0,
+      .attach, .poll 0, .attachR, .poll 0]
+    (run {} es).lockReg = true ∧ (run {} es).loading = true ∧ (run {} es).guards = 1 ∧
+    readyList (run {} es) = [] ∧
+    settled (run {} (es ++ [.release, .poll 0, .poll 0, .poll 0, .poll 0])) = true ∧
+    oracle (run {} (es ++ [.release, .poll 0, .poll 0, .poll 0, .poll 0])) = none ∧
+    (run {} (es ++ [.release, .poll 0, .poll 0, .poll 0, .poll 0])).value = some (fetchFn [2]) ∧
+    awsResumed (run {} (es ++ [.release, .poll 0, .poll 0, .poll 0, .poll 0])) = true := by decide
+
+/-- F-C10-4 (KNOWN, implementation-confirmed by hooks/F-C10-4.demo.rs; class `blocksThread`).  The window in which
+a synchronous read of the derived blocks its thread for good is reachable with everything idle: a holder keeps the
+first value's guard, the source changes, the reload completes — the task is queued for the write lock, nothing is
+woken, and a `get` now would never return.  It stays open after the guard has been released until the task has
+been polled; then it is closed. -/
+theorem C10_sync_access_blocks_witness :
+    let es : List Event := [.poll 0, .complete 0, .poll 0, .attachH, .poll 0, .set 0 2, .poll 0, .complete 1, .poll 0]
+    readyList (run {} es) = [] ∧ (run {} es).guards = 1 ∧
+    blocksThread (run {} es) .get = true ∧ blocksThread (run {} es) .bread = true ∧
+    blocksThread (run {} es) (.manualSet 5) = true ∧
+    -- the guard is released and dropped (the holder has been polled): still blocked until the task runs
+    (run {} (es ++ [.release, .poll 1])).guards = 0 ∧ blocksThread (run {} (es ++ [.release, .poll 1])) .get = true ∧
+    readyList (run {} (es ++ [.release, .poll 1])) = [.d] ∧
+    blocksThread (run {} (es ++ [.release, .poll 1, .poll 0])) .get = false ∧
+    -- control: a guard next to no pending reload blocks no reader (only a manual write)
+    blocksThread (run {} [.poll 0, .complete 0, .poll 0, .attachH, .poll 0]) .get = false ∧
+    blocksThread (run {} [.poll 0, .complete 0, .poll 0, .attachH, .poll 0]) (.manualSet 5) = true := by decide
+
+/-- ... and it is exactly the window in which the derived's task holds the result of its fetch and has not stored
+it: a synchronous read can block only while a fetch has returned and loading is still on -/
+theorem C10_sync_read_blocks_only_while_storing (c : Cfg) (es : List Event)
+    (h : blocksThread (run c es) .get = true) :
+    (run c es).pc = .fetching ∧ (run c es).curStatus = .ready :=
+  ⟨(C10_writer_woken_when_guards_gone c es h).1, (C10_writer_woken_when_guards_gone c es h).2.1⟩
 
 /-- An awaiter is only ever resumed while the loading indication is off, and then with the value the
 derived holds: never `None` (the `unwrap` in `AsyncDerivedFuture::poll` cannot panic). -/
@@ -456,10 +590,12 @@ theorem dIter_value (s : State) :
   · split
     · split
       · rename_i hr
-        obtain ⟨h1, h2⟩ := fetchState_ready s hr.2
-        rcases applyResult_value (fetchState s) with h | h
-        · exact .inl (h.trans (fetchState_value s))
-        · exact .inr ⟨h1, by rw [← h2]; exact h⟩
+        split
+        · obtain ⟨h1, h2⟩ := fetchState_ready s hr.2
+          rcases applyResult_value (fetchState s) with h | h
+          · exact .inl (h.trans (fetchState_value s))
+          · exact .inr ⟨h1, by rw [← h2]; exact h⟩
+        · exact .inl (fetchState_value s)
       · exact .inl (fetchState_value s)
     · exact .inl (chk_value s)
 
@@ -499,11 +635,13 @@ theorem pollD_value (s : State) :
     · exact .inr ⟨h1, h2⟩
   · split
     · rename_i hr
-      rcases dLoop3_value (applyResult { s with dWoken := false }) with h | ⟨h, _⟩
-      · rcases applyResult_value { s with dWoken := false } with h' | h'
-        · exact .inl (h.trans h')
-        · exact .inr ⟨hr.2, h.trans h'⟩
-      · rw [applyResult_curStatus] at h; simp at h
+      split
+      · rcases dLoop3_value (applyResult { s with dWoken := false }) with h | ⟨h, _⟩
+        · rcases applyResult_value { s with dWoken := false } with h' | h'
+          · exact .inl (h.trans h')
+          · exact .inr ⟨hr.2, h.trans h'⟩
+        · rw [applyResult_curStatus] at h; simp at h
+      · exact .inl rfl
     · exact .inl rfl
 
 theorem effUpdate_value (s : State) : (effUpdate s).1.value = s.value := by
@@ -599,7 +737,11 @@ theorem C10_sync_read_is_previous_or_none (s : State) (e : Event) :
         · exact .inl h
         · exact .inr (.inr ⟨j, rfl, h1, h2⟩)
       · exact .inl (eLoop_value 4 _)
-      · exact .inl rfl
+      · refine .inl ?_
+        show (pollA s _).value = s.value
+        unfold pollA wakeWriter
+        dsimp only
+        split <;> rfl
     · exact .inl rfl
   | get => exact .inl rfl
   | bread =>
@@ -608,6 +750,13 @@ theorem C10_sync_read_is_previous_or_none (s : State) (e : Event) :
     (repeat' split) <;> rfl
   | attachS => exact .inl rfl
   | bdrop => exact .inl rfl
+  | attachR => exact .inl rfl
+  | attachH => exact .inl rfl
+  | hold => exact .inl rfl
+  | release =>
+    refine .inl ?_
+    simp only [step, release, wakeWriter]
+    split <;> rfl
 
 /-! ## dependents -/
 
@@ -680,11 +829,14 @@ theorem C10_suspense_released_when_idle (c : Cfg) (es : List Event)
     unfold nLive liveReaders
     rw [List.length_eq_zero_iff, List.filter_eq_nil_iff]
     intro a ha
-    obtain ⟨h1, h2, _⟩ := h.dc.aw a ha
+    obtain ⟨h1, h2, _, _, h5, h6⟩ := h.dc.aw a ha
     cases hdn : a.done
-    · rcases h1 hdn with hw' | hp'
+    · rcases h1 hdn with hw' | hp' | hh | hlost
       · have := hw a ha hw'; simp [hdn] at this
       · have := h2 hp'; simp [hl] at this
+      · simp [(h5 hh).2]
+      · have := h6 hlost
+        cases hk : a.kind <;> simp_all [AwKind.usesLock]
     · simp
   rw [hs.p1, hn, hs.p2 hpc]
 
@@ -712,7 +864,9 @@ theorem dIter_noReader (s : State) : (dIter s).1.noReader = s.noReader := by
   · rfl
   · split
     · split
-      · exact (applyResult_noReader _).trans (fetchState_noReader s)
+      · split
+        · exact (applyResult_noReader _).trans (fetchState_noReader s)
+        · exact fetchState_noReader s
       · exact fetchState_noReader s
     · exact chk_noReader s
 
@@ -732,7 +886,9 @@ theorem pollD_noReader (s : State) : (pollD s).noReader = s.noReader := by
   · split <;> exact dLoop_noReader _ _
   · exact dLoop_noReader _ _
   · split
-    · exact (dLoop_noReader _ _).trans (applyResult_noReader _)
+    · split
+      · exact (dLoop_noReader _ _).trans (applyResult_noReader _)
+      · rfl
     · rfl
 
 theorem applyResult_liveReaders (s : State) : liveReaders (applyResult s).aws = liveReaders s.aws := by
@@ -763,7 +919,9 @@ theorem dIter_liveReaders (s : State) : liveReaders (dIter s).1.aws = liveReader
   · rfl
   · split
     · split
-      · exact (applyResult_liveReaders _).trans (fetchState_liveReaders s)
+      · split
+        · exact (applyResult_liveReaders _).trans (fetchState_liveReaders s)
+        · exact fetchState_liveReaders s
       · exact fetchState_liveReaders s
     · rw [chk_aws]
 
@@ -783,7 +941,9 @@ theorem pollD_liveReaders (s : State) : liveReaders (pollD s).aws = liveReaders 
   · split <;> exact dLoop_liveReaders _ _
   · exact dLoop_liveReaders _ _
   · split
-    · exact (dLoop_liveReaders _ _).trans (applyResult_liveReaders _)
+    · split
+      · exact (dLoop_liveReaders _ _).trans (applyResult_liveReaders _)
+      · rfl
     · rfl
 
 /-- only a new reader under the boundary (`bread`, `attachS`) ends "no reader", and only a synchronous read
@@ -821,16 +981,39 @@ theorem step_noReader (s : State) (e : Event) (hb : e ≠ .bread) (ha : e ≠ .a
       · have hh := eLoop_susp 4 { s with eWoken := false }
         exact ⟨hh.2.2.2.2.2.2.2.2.2.trans h, Nat.le_of_eq (congrArg liveReaders hh.2.1)⟩
       · rename_i i _
-        refine ⟨h, ?_⟩
-        have := nLive_poll s.loading s.value s.aws i
-        show liveReaders (modifyAt (pollAw s.loading s.value) s.aws i) ≤ liveReaders s.aws
+        have := nLive_poll s.loading s.lockReg s.value s.aws i
         unfold nLive at this
-        omega
+        show (pollA s i).noReader = true ∧ liveReaders (pollA s i).aws ≤ liveReaders s.aws
+        unfold pollA wakeWriter
+        dsimp only
+        split
+        · exact ⟨h, Nat.le.intro this⟩
+        · exact ⟨h, Nat.le.intro this⟩
     · exact ⟨h, Nat.le_refl _⟩
   | get => exact ⟨h, Nat.le_refl _⟩
   | bread => exact absurd rfl hb
   | attachS => exact absurd rfl ha
   | bdrop => exact absurd rfl hd
+  | attachR =>
+    refine ⟨h, Nat.le_of_eq ?_⟩
+    show liveReaders (s.aws ++ [({ kind := .awaiterR } : Aw)]) = liveReaders s.aws
+    rw [show liveReaders (s.aws ++ [({ kind := .awaiterR } : Aw)]) = nLive s.aws + nLive [({ kind := .awaiterR } : Aw)]
+      from nLive_append _ _]
+    simp [nLive, liveReaders]
+  | attachH =>
+    refine ⟨h, Nat.le_of_eq ?_⟩
+    show liveReaders (s.aws ++ [({ kind := .holder } : Aw)]) = liveReaders s.aws
+    rw [show liveReaders (s.aws ++ [({ kind := .holder } : Aw)]) = nLive s.aws + nLive [({ kind := .holder } : Aw)]
+      from nLive_append _ _]
+    simp [nLive, liveReaders]
+  | hold => exact ⟨h, Nat.le_refl _⟩
+  | release =>
+    show (release s).noReader = true ∧ liveReaders (release s).aws ≤ liveReaders s.aws
+    unfold release wakeWriter
+    dsimp only
+    split
+    · exact ⟨h, Nat.le_of_eq (nLive_release s.aws)⟩
+    · exact ⟨h, Nat.le_of_eq (nLive_release s.aws)⟩
 
 /-- ... whether the proposed repair 3 is applied or not -/
 theorem stepF_noReader (f : Bool) (s : State) (e : Event) (hb : e ≠ .bread) (ha : e ≠ .attachS)
